@@ -75,6 +75,22 @@ def gen_preserve_nest(rng, widths):
             "align": rng.random() < 0.2, "width": rng.choice(widths + [40, 80, 120, 200]), "decls": None}
 
 
+def gen_flip(rng, widths):
+    """a case whose tree carries an xml:space attribute other than "preserve" somewhere: after a first serialization its
+    value is set to "preserve" through the Attribute object and the (still reduced) tree is serialized again"""
+    for _ in range(20):
+        c = gen_case(rng, widths)
+        if c["path"]:
+            continue
+        cands = [p for p, s in F.subtrees(c["tree"])
+                 if any(a[0] == trees.XML_NS and a[1] == "space" and a[2] != "preserve" for a in s[3])]
+        if cands:
+            c["flip"] = list(rng.choice(cands))
+            c["how"] = "parsed"
+            return c
+    return None
+
+
 def reread(out):
     from delb import Document, ParserOptions
 
@@ -190,6 +206,7 @@ def check(run: Run, lean: dict) -> int:
     run_cases(run, corpus(), "corpus", ok)
     run_cases(run, [gen_case(run.rng, widths) for _ in range(n)], "generated", ok)
     run_cases(run, [gen_preserve_nest(run.rng, widths) for _ in range(n // 5)], "preserve-nesting", ok)
+    run_cases(run, [c for c in (gen_flip(run.rng, widths) for _ in range(n // 10)) if c], "directive changed between two serializations", ok)
     return run.finish(lean, LEVEL, ASSUME, search=search)
 
 
